@@ -289,13 +289,21 @@ Definition keys {V} (m : list (N * V)) : list N := map fst m.
 
 Definition tool_ids_of (k : ekind) : list N := match k with KToolStarted id => [id] | _ => [] end.
 Definition task_ids_of (k : ekind) : list N :=
-  match k with KTaskSpawned id => [id] | KTaskStatus id _ => [id] | _ => [] end.
+  match k with KTaskSpawned id _ => [id] | KTaskStatus id _ _ => [id] | _ => [] end.
 Definition job_ids_of (k : ekind) : list N :=
   match k with KJobSpawned id => [id] | KJobEnded id => [id] | _ => [] end.
+(* artifact ids a frame carries *)
+Definition art_ids_of (k : ekind) : list N :=
+  match k with
+  | KToolEnded _ a => a | KTaskSpawned _ a => a | KTaskStatus _ _ a => a | KTaskDelta _ _ _ a => a
+  | KContextCompiled x => [x] | KCkptCreated x => [x] | KOrRequest x => [x]
+  | _ => []
+  end.
 (* the ids for which a frame that creates an entry was seen *)
 Definition tool_ids (evs : list ev) : list N := flat_map (fun e => tool_ids_of (ekd e)) evs.
 Definition task_ids (evs : list ev) : list N := flat_map (fun e => task_ids_of (ekd e)) evs.
 Definition job_ids (evs : list ev) : list N := flat_map (fun e => job_ids_of (ekd e)) evs.
+Definition art_ids (evs : list ev) : list N := flat_map (fun e => art_ids_of (ekd e)) evs.
 Definition distinct (l : list N) : N := nlen (nodup N.eq_dec l).
 
 Lemma map_put_keys {V} k (v : V) m :
@@ -384,15 +392,34 @@ Proof.
   destruct k; cbn [job_ids_of]; try (apply KInv_weaken; exact H); apply KInv_put_new, H.
 Qed.
 
+Lemma set_add_all_keys xs : forall (m : idset) ids, KInv m ids -> KInv (set_add_all xs m) (ids ++ xs).
+Proof.
+  unfold set_add_all. induction xs as [|x xs IH]; intros m ids H; cbn [fold_left]; [rewrite app_nil_r; exact H|].
+  replace (ids ++ x :: xs) with ((ids ++ [x]) ++ xs) by (rewrite <- app_assoc; reflexivity).
+  apply IH, KInv_put_new, H.
+Qed.
+
+Lemma upd_artifacts_keys s k ids :
+  KInv (st_artifacts s) ids -> KInv (upd_artifacts s k) (ids ++ art_ids_of k).
+Proof.
+  intros H. unfold upd_artifacts.
+  destruct k; cbn [art_ids_of]; try (apply KInv_weaken; exact H); try (apply KInv_put_new, H);
+    try (apply set_add_all_keys, H).
+  - destruct (map_get id (st_tools s)); [apply set_add_all_keys, H | apply KInv_weaken, H].
+  - destruct (map_get id (st_tasks s)); [apply set_add_all_keys, H | apply KInv_weaken, H].
+Qed.
+
 Definition MapsInv (s : tui) (seen : list ev) : Prop :=
-  KInv (st_tools s) (tool_ids seen) /\ KInv (st_tasks s) (task_ids seen) /\ KInv (st_jobs s) (job_ids seen).
+  KInv (st_tools s) (tool_ids seen) /\ KInv (st_tasks s) (task_ids seen) /\ KInv (st_jobs s) (job_ids seen)
+  /\ KInv (st_artifacts s) (art_ids seen).
 
 Lemma update_maps s e seen : MapsInv s seen -> MapsInv (update s e) (seen ++ [e]).
 Proof.
-  intros [Ht [Hk Hj]]. unfold MapsInv, tool_ids, task_ids, job_ids.
+  intros [Ht [Hk [Hj Ha]]]. unfold MapsInv, tool_ids, task_ids, job_ids, art_ids.
   rewrite !flat_map_app. cbn [flat_map]. rewrite !app_nil_r.
-  unfold update; cbn [st_tools st_tasks st_jobs].
-  split; [apply upd_tools_keys, Ht|]. split; [apply upd_tasks_keys, Hk | apply upd_jobs_keys, Hj].
+  unfold update; cbn [st_tools st_tasks st_jobs st_artifacts].
+  split; [apply upd_tools_keys, Ht|]. split; [apply upd_tasks_keys, Hk |].
+  split; [apply upd_jobs_keys, Hj | apply upd_artifacts_keys, Ha].
 Qed.
 
 Lemma run_maps evs s seen : MapsInv s seen -> MapsInv (fold_left update evs s) (seen ++ evs).
@@ -441,11 +468,13 @@ Theorem tui_maps_bounded m mo af evs :
   (nlen (st_tools s) <= distinct (tool_ids evs) /\ NoDup (keys (st_tools s)))
   /\ (nlen (st_tasks s) <= distinct (task_ids evs) /\ NoDup (keys (st_tasks s)))
   /\ (nlen (st_jobs s) <= distinct (job_ids evs) /\ NoDup (keys (st_jobs s)))
+  /\ (nlen (st_artifacts s) <= distinct (art_ids evs) /\ NoDup (keys (st_artifacts s)))
   /\ held_bytes s <= N.max mo 1 + 8192 * (2 * distinct (tool_ids evs) + 3 * distinct (task_ids evs)).
 Proof.
   cbv zeta. unfold run_tui.
   assert (H0 : MapsInv (tui_new m mo af) []) by (unfold MapsInv, KInv, tui_new; cbn; repeat split; try constructor; intros x []).
-  pose proof (run_maps evs _ _ H0) as [Ht [Hk Hj]]. cbn [app] in *.
+  pose proof (run_maps evs _ _ H0) as [Ht [Hk [Hj Ha]]]. cbn [app] in *.
+  destruct (KInv_count _ _ Ha) as [Na Ca].
   destruct (KInv_count _ _ Ht) as [Nt Ct]. destruct (KInv_count _ _ Hk) as [Nk Ck]. destruct (KInv_count _ _ Hj) as [Nj Cj].
   pose proof (tui_bounds m mo af evs) as Hb. cbv zeta in Hb. unfold run_tui in Hb.
   destruct Hb as [_ [Ho [Hto Hta]]].
@@ -460,7 +489,7 @@ Qed.
 
 (* the count bound is tight and the maps really are unbounded in the number of ids *)
 Definition started (i : nat) : ev := {| eseq := 0; ets := 0; ekd := KToolStarted (N.of_nat i); eident := 0 |}.
-Definition fresh_tool : tool := {| t_out := []; t_err := []; t_status := 0 |}.
+Definition fresh_tool : tool := {| t_out := []; t_err := []; t_status := 0; t_arts := [] |}.
 Lemma st_tools_started s i : st_tools (update s (started i)) = map_put (N.of_nat i) fresh_tool (st_tools s).
 Proof. reflexivity. Qed.
 Lemma map_put_above_len k (m : list (N * tool)) :
